@@ -4,8 +4,11 @@ pub mod gen {
     include!(concat!(env!("OUT_DIR"), "/conjure/mod.rs"));
 }
 mod c04;
+mod c19;
 mod handler;
 mod loopback;
+mod macros;
+mod reqs;
 
 use vcommon::{Args, Report};
 
@@ -14,6 +17,7 @@ fn main() {
     vcommon::quiet_panics();
     let report: Report = match args.property.as_str() {
         "C04" => c04::run(&args),
+        "C19" => c19::run(&args),
         other => panic!("httploop: unknown property {}", other),
     };
     report.write(&args.out);
